@@ -135,7 +135,7 @@ def run_case(case):
             if sample is None and call["field"] and call["npages"] > 2 and r.get("requests"):
                 sample = {"rpc": call["rpc"], "shape": call["shape"], "client": call["kind"], "page_sizes": sizes,
                           "tokens_seen_by_server": r.get("tokens"), "items_yielded": len(r.get("items") or [])}
-    return {"verdict": "violated" if viol else "held", "violations": viol[:20], "evaluations": len(calls),
+    return {"verdict": "violated" if viol else "held", "violations": pipeline.diverse(viol, 40), "evaluations": len(calls),
             "nontrivial_sigs": sorted(sigs), "counters": counters, "sample": sample or {}}
 
 
